@@ -94,6 +94,11 @@ pub enum Op {
     // ---- cross-thread ordering for curated programs
     Set(u8),
     Wait(u8),
+    // ---- C17: kanal's own lock driven directly (no channel involved)
+    /// lock(); critical section; unlock()
+    LockL,
+    /// try_lock(); critical section and unlock if acquired
+    LockT,
 }
 
 impl Op {
@@ -245,8 +250,17 @@ impl Program {
             0
         }
     }
+    pub fn is_lock_program(&self) -> bool {
+        self.threads
+            .iter()
+            .any(|t| t.ops.iter().any(|o| matches!(o, Op::LockL | Op::LockT)))
+    }
+    /// Historical: programs with >=3 threads used to run with loom's mutex
+    /// in place of kanal's spin lock.  Since the shim models a failed lock
+    /// acquisition as blocking (rt/src/atomic.rs) every program runs on the
+    /// real lock.
     pub fn needs_seam(&self) -> bool {
-        self.threads.len() >= 3
+        false
     }
 }
 
